@@ -375,6 +375,13 @@ SME_POLY = meta.SUBMODEL_ELEMENT_CLASSES
 REF_POLY = ["ExternalReference", "ModelReference"]
 
 
+def can_be_empty(spec_kind: str) -> bool:
+    """SPEC: may the attribute's lexical token be the empty string?"""
+    k = spec_kind[1:] if spec_kind[0] == "o" else spec_kind
+    head = k.split(":")[0].split("=")[0]
+    return head in ("str0", "typed", "bytes")
+
+
 def kind_of(spec_kind: str, enums: Dict[str, Dict[str, str]]):
     """-> (lean kind, optional, noFalsy, enumVals, default-when-absent)"""
     opt = spec_kind[0] == "o"
@@ -559,6 +566,7 @@ def build(repo: str) -> Dict[str, Any]:
                 "member": member, "attr": attr, "guard": guard, "encStrip": bool(w["encStrip"]),
                 "decReads": r is not None, "decRequired": bool(r and r["required"]), "decStrip": bool(r and r["decStrip"]),
                 "kind": kind, "optional": opt, "noFalsy": nofalsy, "enumVals": ev, "dflt": dflt,
+                "canBeEmpty": can_be_empty(sk) if cls != "OperationVariable" else False, "emptyText": "exact",
                 "flags": w.get("flags", []), "nestedUnder": w.get("nestedUnder"),
             })
         for attr in spec:
@@ -619,7 +627,8 @@ def emit_lean(data: Dict[str, Any], name: str = "jsonTable", namespace: str = "B
                 f"  {{ member := {lstr(r['member'])}, attr := {lstr(r['attr'])}, guard := {lean_guard(r['guard'])}, "
                 f"encStrip := {b(r['encStrip'])}, decReads := {b(r['decReads'])}, decRequired := {b(r['decRequired'])}, "
                 f"decStrip := {b(r['decStrip'])}, kind := {lean_kind(r['kind'])}, optional := {b(r['optional'])}, "
-                f"noFalsy := {b(r['noFalsy'])}, enumVals := [{', '.join(lstr(e) for e in r['enumVals'])}], dflt := {lean_dflt(r['dflt'])} }}")
+                f"noFalsy := {b(r['noFalsy'])}, enumVals := [{', '.join(lstr(e) for e in r['enumVals'])}], dflt := {lean_dflt(r['dflt'])}, "
+                f"emptyText := .{r.get('emptyText', 'exact')}, canBeEmpty := {b(r.get('canBeEmpty', False))} }}")
         out.append(",\n".join(lines) + "]")
         out.append("")
     out.append(f"def {name} : Table := [")
